@@ -25,7 +25,10 @@ KFO(e, clause) ==
   \* the same defect surfacing at first use instead of at import (pydantic builds the schema lazily): every class that is
   \* unusable only under this variant fails on a field named like a builtin type
   ELSE IF clause = "variant_class_unusable" /\ e.pydantic
-          /\ \A x \in SeqSet(e.errors) : x.key \in { y.key : y \in SeqSet(e.default_errors) } \/ x.field \in SeqSet(Shard.hdr.builtin_type_names)
+          /\ \A x \in SeqSet(e.errors) : \/ x.key \in { y.key : y \in SeqSet(e.default_errors) }
+                                          \/ x.field \in SeqSet(Shard.hdr.builtin_type_names)
+                                          \* (list[...] / dict[...] evaluated on the field's placeholder default)
+                                          \/ (x.placeholder /\ \E n \in SeqSet(e.field_names) : n \in SeqSet(Shard.hdr.builtin_type_names))
   THEN "KF_C18_BuiltinNamedFieldUnderPydantic" ELSE ""
 Init == i = 1
 Next == /\ i <= Len(Events) /\ i' = i + 1
